@@ -91,6 +91,22 @@ REPLAYERS = {
 }
 
 
+def _load_unit_replayers():
+    """replay/replayers_<unit>.py files may add entries: REPLAYERS = {name: {"args": fn(inputs, o, work), "src": [...], "flags": [...]}}"""
+    import glob, importlib.util
+    for f in sorted(glob.glob(os.path.join(VERIF, "replay", "replayers_*.py"))):
+        spec = importlib.util.spec_from_file_location(os.path.basename(f)[:-3], f)
+        m = importlib.util.module_from_spec(spec)
+        try:
+            spec.loader.exec_module(m)
+            REPLAYERS.update(getattr(m, "REPLAYERS", {}))
+        except Exception as e:  # pragma: no cover
+            sys.stderr.write("replayers file %s failed to load: %r\n" % (f, e))
+
+
+_load_unit_replayers()
+
+
 def replay(name, inputs, repo, work, o):
     rp = REPLAYERS[name]
     exe, err = _build(name, repo, work, rp.get("src", ()), rp.get("flags", ()))
